@@ -82,11 +82,15 @@ TraceI2P == IsEvent("i2p") /\ I2POK(Ev.in, Ev.out)
 
 \* ---- C10: path words are self-consistent and their numeric order is pre-order
 Chars(bits) == [i \in 1..Len(bits) |-> 48 + bits[i]]
+\* (a case may give every node its own tree height, "hs": calls on trees of different heights in a row; the
+\* numeric order is only compared between nodes of one height, so such a case lists no pairs)
 PathWOK(in, o) ==
-    LET h == in.h IN
-    /\ h >= 0 /\ h <= 32
+    /\ in.h >= 0 /\ in.h <= 32
+    /\ ("hs" \in DOMAIN in => Len(in.hs) = Len(in.nodes) /\ Len(in.pairs) = 0)
     /\ \A j \in DOMAIN in.nodes :
-          LET b == in.nodes[j]  w == ToSet(o.w[j]) IN
+          LET b == in.nodes[j]  w == ToSet(o.w[j])
+              h == IF "hs" \in DOMAIN in THEN in.hs[j] ELSE in.h IN
+          /\ h >= 0 /\ h <= 32
           /\ Len(b) <= h
           /\ w = PathOnes(h, b)
           /\ o.len[j] = Len(b)
